@@ -54,6 +54,8 @@ def run(ctx, tier):
     for name in cfgs:
         ctx.set_config(name)
         check(ctx, fxs[name])
+        from rules import c09_hrefsize
+        c09_hrefsize.check(ctx, fxs[name], "L5")
 
 
 def check(ctx, fx):
